@@ -726,3 +726,8 @@ func Par(fs ...func()) { runPar(fs) }
 // GhostCount: the size of a ghost log of the symbolic run (e.g. "dials": connection attempts).  Ghost
 // state has no native counterpart: 0 natively (an assertion over it is decided symbolically only).
 func GhostCount(key string) int { return 0 }
+
+// Since and Until: time.Since / time.Until on the harness's clock (the replay overlay rewrites the calls of the code
+// under test when linear time is stubbed; they read the wall clock inside package time otherwise).
+func Since(t time.Time) time.Duration { return Now().Sub(t) }
+func Until(t time.Time) time.Duration { return t.Sub(Now()) }
